@@ -122,6 +122,7 @@ static void eval_seq(pkt_t **seq,int m,const char *what){
    int N=0,k,i,b,e,start[48],pk[48],lf[48];
    opus_repacketizer_init(&RP);
    if (MC.only_item>=0) mc_case("out_range","%s: %s",what,seq_str(seq,m));
+   else mc_case_bytes("out_range",seq[m-1]->bytes,seq[m-1]->len<64?seq[m-1]->len:64,m,seq[0]->nf,m>1?seq[1]->nf:0);   /* crash attribution: last packet, a=packets b,c=frames of first two */
    for(k=0;k<m;k++){
       int r=opus_repacketizer_cat(&RP,seq[k]->bytes,seq[k]->len); l_calls++;
       if (r!=OPUS_OK){ FAIL("carriage:cat_refused","cat of packet %d returned %d; %s",k,r,seq_str(seq,m)); return; }
